@@ -239,3 +239,9 @@ IJ("C01.quietly_kill", "C01", "h_kill", ["iauth_send", "parse_registered"], func
    cbmc=["--unwindset", "iauth_send.0:12"])
 IJ("C01.soft_done", "C01", "h_soft_done", ["iauth_send"], functions=["iauth_soft_done"], cbmc=["--unwindset", "iauth_send.0:12"])
 IJ("C03.timeout", "C03", "h_timeout", ["iauth_check_request"], functions=["iauth_timeout"], extra_props=("C02",))
+
+HANDLER_CALLEES = ["iauth_check_request", "iauth_send"]
+for h, fn in (("hostname", "parse_hostname"), ("no_hostname", "parse_no_hostname"), ("nick", "parse_nick"), ("ident", "parse_ident"),
+              ("user_info", "parse_user_info"), ("password", "parse_password"), ("hurry_up", "parse_hurry_up")):
+    IJ("C03.parse_" + h, "C03", "h_parse_" + h, HANDLER_CALLEES, functions=[fn], extra_props=("C01",),
+       cbmc=["--unwindset", "iauth_send.0:40,copy_ok.0:81,strncpy.0:81"])
